@@ -410,26 +410,52 @@ Definition no_fp_fn (infos : val) : bool :=
   | _ => false
   end.
 
+(** calibration, stated on the output alone (data = (inputs preds targets), the cleaned texts):
+    - predictions = targets: no sequence has a false positive or negative, so every per-sequence
+      triple is (1,1,1) or (0,0,0) and F = precision = recall in both aggregation modes;
+    - predictions = inputs, micro averaging: no true positive at all, so F = precision = recall = 0. *)
+Definition eq3 (x : val) : bool :=
+  match x with L [f; p; r] => close f p && close r p | _ => false end.
+Definition is_zero (x : val) : bool :=
+  match v_num x with Some (n, _) => Z.eqb n 0 | None => false end.
+Definition zero3 (x : val) : bool :=
+  match x with L [f; p; r] => is_zero f && is_zero p && is_zero r | _ => false end.
+Definition calib (d : val) (seq_avg : bool) (x : val) : bool :=
+  (if val_eqb (v_nth 1 d) (v_nth 2 d) then eq3 x else true) &&
+  (if val_eqb (v_nth 1 d) (v_nth 0 d) && negb seq_avg then zero3 x else true).
+
 (** The executable statement, evaluated on an output (normally the implementation's):
     no panic; Err exactly where the model says so; finite values in [0,1] (mean edit distance:
-    >= 0, normalised: in [0,1]); the values are the model's (whose calibration, aggregation and
-    defining formulas are theorems); whitespace F1 with prediction = target reports no false
-    positive and no false negative. *)
+    >= 0, normalised: in [0,1]); the values are the model's (whose aggregation and defining
+    formulas are theorems); calibration as above; whitespace F1 with predictions = targets
+    reports no false positive and no false negative operation. *)
 Definition check_C13 (v out : val) : bool :=
   agree_C13 v (run_C13 v) out &&
   match out with
   | L [I 0%Z; x] =>
+    let cfg := v_nth 1 v in
+    let d := v_nth 2 v in
     match v_z (v_nth 0 v) with
-    | 0%Z | 4%Z => in01_3 x
+    | 0%Z => in01_3 x
     | 1%Z => in01 x
-    | 2%Z => if v_bool (v_nth 0 (v_nth 1 v)) then in01 x else nonneg x
+    | 2%Z => if v_bool (v_nth 0 cfg) then in01 x else nonneg x
     | 3%Z => match x with
              | L [f; infos] =>
-               in01_3 f &&
-               (if val_eqb (v_nth 1 (v_nth 2 v)) (v_nth 2 (v_nth 2 v)) then no_fp_fn infos else true)
+               in01_3 f && calib d (v_bool (v_nth 1 cfg)) f &&
+               (if val_eqb (v_nth 1 d) (v_nth 2 d) then no_fp_fn infos else true)
              | _ => false
              end
+    | 4%Z => in01_3 x && calib d (v_bool (v_nth 1 cfg)) x
     | _ => false
     end
   | _ => true
+  end.
+
+(** premise of [check_run]: a known function id and, for the spelling metric, clean texts *)
+Definition premise_C13 (v : val) : bool :=
+  let d := v_nth 2 v in
+  match v_z (v_nth 0 v) with
+  | 0%Z | 1%Z | 2%Z | 3%Z => true
+  | 4%Z => forallb clean_text (v_cll (v_nth 0 d)) && forallb clean_text (v_cll (v_nth 1 d))
+  | _ => false
   end.
